@@ -60,13 +60,18 @@ func TestC09Aggregate(t *testing.T) {
 	vstat.Assume("partials handed to the aggregator are what the partial-signature store hands over: >= t entries of distinct shares unless a corruption says otherwise; unsigned metadata (aggregation bits, validator index) is not part of the signed content")
 	// two fork schedules: forks spread over the epoch range, and (as test networks start) the first forks all
 	// active from genesis, where the fork version in force at epoch 0 is not the genesis fork version
-	bns := []*fakebn.BN{fakebn.New(), fakebn.NewGenesisForks(4)}
+	shortEpochs := fakebn.New()
+	shortEpochs.SPE = 16 // a chain whose epochs are not 32 slots long (the spec constant is read from the beacon node)
+	bns := []*fakebn.BN{fakebn.New(), fakebn.NewGenesisForks(4), shortEpochs}
 	ctx := context.Background()
 	kinds := eth2Kinds()
 	rapid.Check(t, func(rt *rapid.T) {
 		bn := bns[0]
-		if rapid.IntRange(0, 2).Draw(rt, "forksAtGenesis") == 0 {
+		switch rapid.IntRange(0, 5).Draw(rt, "schedule") {
+		case 0, 1:
 			bn = bns[1]
+		case 2:
+			bn = bns[2]
 		}
 		k := kinds[rapid.IntRange(0, len(kinds)-1).Draw(rt, "kind")]
 		n := rapid.IntRange(3, 7).Draw(rt, "n")
@@ -417,7 +422,7 @@ func TestC09Aggregate(t *testing.T) {
 		spec0, _ := specsign.Of(bn, vals[0].value)
 		fork := bn.ForkAt(spec0.Epoch).Name
 		nontrivial := nVals > 1 || corruption != "none" || followUp != "none"
-		vstat.Case(fmt.Sprintf("%s/%d/%d/%s/%s/%s", k.Name, n, thr, corruption, followUp, fpParts), nontrivial, "type:"+k.Name, "corruption:"+corruption, "second_call:"+followUp, cls("transient_beacon_spec_fault", specFaults > 0), "fork_of_epoch:"+fork, cls("multi_validator", nVals > 1), cls("schedule_with_forks_at_genesis", bn == bns[1]), cls("object_of_epoch_0", spec0.Epoch == 0))
+		vstat.Case(fmt.Sprintf("%s/%d/%d/%s/%s/%s", k.Name, n, thr, corruption, followUp, fpParts), nontrivial, "type:"+k.Name, "corruption:"+corruption, "second_call:"+followUp, cls("transient_beacon_spec_fault", specFaults > 0), "fork_of_epoch:"+fork, cls("multi_validator", nVals > 1), cls("schedule_with_forks_at_genesis", bn == bns[1]), cls("schedule_with_16_slot_epochs", bn == bns[2]), cls("object_of_epoch_0", spec0.Epoch == 0))
 		if nontrivial && vstat.WantSample(corruption) {
 			vstat.Sample(corruption, map[string]any{"type": k.Name, "n": n, "t": thr, "validators": nVals, "corruption": corruption, "subsets": fpParts, "domain": spec0.Domain, "fork_of_epoch": fork})
 		}
